@@ -125,6 +125,11 @@ impl Vtx {
         let loop_start_rame = reader.read_u16::<LittleEndian>()?;
         let frequency = reader.read_u32::<LittleEndian>()?;
         let player_frequency = reader.read_u8()?;
+        if player_frequency == 0 {
+            return Err(VtxError::InvalidHeader {
+                message: "Invalid player frequency",
+            });
+        }
         let year = reader.read_u16::<LittleEndian>()?;
         let decompressed_frames_size = reader.read_u32::<LittleEndian>()?;
 
@@ -144,6 +149,11 @@ impl Vtx {
         while null_terminators_read != 5 {
             let mut strings_partial_buffer = [0u8; READ_STRING_BUFFER_SIZE];
             let bytes_read = reader.read(&mut strings_partial_buffer)?;
+            if bytes_read == 0 {
+                return Err(VtxError::InvalidHeader {
+                    message: "Unexpected end of strings block",
+                });
+            }
             let mut current_buffer_bytes_count = 0;
             while current_buffer_bytes_count < bytes_read {
                 if let Some(pos) = strings_partial_buffer[current_buffer_bytes_count..]
@@ -192,6 +202,22 @@ impl Vtx {
         let from = strings.pop().unwrap();
         let author = strings.pop().unwrap();
         let title = strings.pop().unwrap();
+
+        // lh5 can't expand data more than ~1024 times (2 bits for each 256-byte match), so
+        // declared size should be checked before allocation of the big buffers
+        const MAX_COMPRESSION_RATIO: u64 = 1024;
+        let compressed_data_start = reader.stream_position()?;
+        let compressed_data_size = reader
+            .seek(std::io::SeekFrom::End(0))?
+            .saturating_sub(compressed_data_start);
+        reader.seek(std::io::SeekFrom::Start(compressed_data_start))?;
+        if decompressed_frames_size as u64
+            > compressed_data_size.saturating_mul(MAX_COMPRESSION_RATIO)
+        {
+            return Err(VtxError::InvalidHeader {
+                message: "Invalid decompressed frames data size",
+            });
+        }
 
         let mut transposed_frame_data = vec![0u8; decompressed_frames_size as usize];
         let mut decoder = Lh5Decoder::new(reader);
